@@ -215,8 +215,9 @@ func (w *world) checkLookups(cv *canonView, idle bool) *simcore.Violation {
 				return viol("txlookup-noncanonical", "lookup of tx %x resolves to #%d %x but the tx is not in the canonical chain", h[:4], lk.BlockIndex, lk.BlockHash[:4])
 			}
 			if lk.BlockHash != hm.hash || lk.BlockIndex != hm.num || lk.Index != uint64(hm.idx) || tx == nil || tx.Hash() != h {
-				if _, dbHash, dbNum, dbIdx := rawdb.ReadCanonicalTransaction(w.db, h); dbHash == hm.hash && dbNum == hm.num && dbIdx == uint64(hm.idx) {
-					// the database resolves the transaction correctly, BlockChain's lookup cache does not
+				if dbtx, dbHash, dbNum, dbIdx := rawdb.ReadCanonicalTransaction(w.db, h); dbtx == nil || (dbHash == hm.hash && dbNum == hm.num && dbIdx == uint64(hm.idx)) {
+					// the database resolves the transaction correctly (or, unindexed, not at all),
+					// BlockChain's lookup cache answers with a block that is no longer canonical
 					v := viol("txlookup-wrong", "GetCanonicalTransaction(%x) gives #%d %x index %d from its cache, the database (and the canonical chain) say #%d %x index %d", h[:4], lk.BlockIndex, lk.BlockHash[:4], lk.Index, hm.num, hm.hash[:4], hm.idx)
 					v.Key = "txlookup-wrong:stale-lookup-cache"
 					return v
